@@ -150,7 +150,7 @@ Finish ==
   /\ phase = "lin" /\ applied = NOps
   /\ \A d \in Datasets : model[d] = Len(final[d])
   \* a feed read from the start never ends inside a batch or transaction: its length is a batch boundary
-  /\ \A pg \in pages : pg[1] \in Datasets => pg \in bounds
+  /\ (\A pg \in pages : pg[1] \in Datasets => pg \in bounds) = TRUE    \* '= TRUE': evaluated as a value, not unfolded
   /\ phase' = "done"
   /\ TLCSet(3, 1)
   /\ UNCHANGED <<l, ops, final, counts, pages, model, cnext, applied, edges, held, bad, bounds>>
